@@ -106,7 +106,7 @@ type Contracts struct {
 
 var clauseKinds = map[string]bool{"requires": true, "ensures": true, "invariant": true, "returns": true,
 	"fswrite": true, "assume": true, "assert": true, "params": true, "pure": true, "replay": true, "sweep": true,
-	"decreases": true, "opt": true, "frame": true, "impure": true, "guide": true, "at-call": true, "ghost": true, "sets": true, "slice-invariant": true, "watch": true, "ensures-bounded": true, "modifies": true, "each": true, "ensures-local": true, "assume-at-call": true, "closure-invariant": true, "defines": true, "tolerates": true, "havocs": true, "fsread": true}
+	"decreases": true, "opt": true, "frame": true, "impure": true, "guide": true, "at-call": true, "ghost": true, "sets": true, "slice-invariant": true, "watch": true, "ensures-bounded": true, "modifies": true, "each": true, "ensures-local": true, "assume-at-call": true, "closure-invariant": true, "defines": true, "tolerates": true, "fresh-invariant": true, "havocs": true, "fsread": true}
 
 var theoremRe = regexp.MustCompile(`^(\S+)\s*\(([^)]*)\)\s*:\s*(.*)$`)
 var lemmaPatRe = regexp.MustCompile(`^([A-Za-z_][A-Za-z0-9_.]*)\(([^)]*)\)\s*`)
@@ -361,6 +361,21 @@ func (cs *Contracts) parseContractFile(file string, repo bool, pkgPath string) e
 					c.Props = propsOf(c.Label)
 					cur.Clauses = append(cur.Clauses, c)
 					last = &cur.Clauses[len(cur.Clauses)-1].Expr
+					continue
+				}
+				if word == "fresh-invariant" {
+					// fresh-invariant loopN VAR : the slice variable holds storage allocated by this function throughout the loop
+					f := strings.Fields(rest)
+					if len(f) != 2 {
+						return fmt.Errorf("%s:%d: fresh-invariant loopN VAR", file, ln)
+					}
+					n, err := strconv.Atoi(strings.TrimPrefix(f[0], "loop"))
+					if err != nil {
+						return fmt.Errorf("%s:%d: %v", file, ln, err)
+					}
+					c.Loop, c.Expr, c.Label = n, f[1], "fresh."+f[1]
+					cur.Clauses = append(cur.Clauses, c)
+					last = nil
 					continue
 				}
 				if word == "invariant" || word == "decreases" {
